@@ -743,8 +743,10 @@ def gen_value(draw, spec, sc, vp=None):
         return draw(st.sampled_from([o for o, _ in spec[2]]))
     if k == "const":
         return draw(st.sampled_from([None, None, spec[1]]))
-    if k in ("computed", "pass", "padding", "terminated", "check", "stopif", "index", "error", "tell"):
+    if k in ("computed", "pass", "padding", "terminated", "check", "stopif", "index", "error", "tell", "peek"):
         return None
+    if k == "pointer":
+        return gen_value(draw, spec[2], sc)
     if k == "oneof":
         return draw(st.sampled_from(spec[2]))
     if k == "noneof":
